@@ -296,6 +296,11 @@ pub fn run_index() -> u64 {
     with(|c| c.run_index)
 }
 
+/// Panics recorded so far in this run (remoc's or the harness's).
+pub fn panics() -> Vec<String> {
+    with(|c| c.panics.clone())
+}
+
 pub fn live_tasks() -> i64 {
     with(|c| c.live_tasks)
 }
